@@ -29,7 +29,9 @@ package main
 //     `make`, `new`, `nil`, a literal, a conversion of one of these, `append` to a fresh slice, or a
 //     call of a library function all of whose returns are fresh (fixpoint). Flow-insensitive.
 //  4. Synchronisation class of a row, read off the enclosing code:
-//       syncMap   – method of a sync.Map
+//       syncMap   – mutating method of a sync.Map; syncMapCasNil – `CompareAndSwap(k, nil, v)` (stores nothing for
+//                   an absent key); syncMapLoad – `Load` / `Range` (a READ whose value the caller uses: listed so
+//                   that "this cache is read but never filled" is an obligation on the table)
 //       mutex     – between `m.Lock()` and `m.Unlock()` (or after `m.Lock(); defer m.Unlock()`) of a
 //                   sync.Mutex / sync.RWMutex in the same function
 //       once      – inside the function literal handed to (*sync.Once).Do
@@ -1468,8 +1470,19 @@ func (x *swx) scanFunc(fi *fnInfo) []swCand {
 				}
 				if strings.HasSuffix(sig.Recv().Type().String(), "sync.Map") {
 					switch f.Name() {
-					case "Store", "LoadOrStore", "LoadAndDelete", "Delete", "Swap", "CompareAndSwap", "CompareAndDelete", "Clear":
+					case "Store", "LoadOrStore", "LoadAndDelete", "Delete", "Swap", "CompareAndDelete", "Clear":
 						record(n, sel.X, curStmt, "syncMap")
+					case "CompareAndSwap":
+						// CompareAndSwap(k, nil, v) never stores for an ABSENT key (and no value is ever nil): inert
+						if id, ok := n.Args[1].(*ast.Ident); ok && len(n.Args) == 3 && id.Name == "nil" {
+							record(n, sel.X, curStmt, "syncMapCasNil")
+						} else {
+							record(n, sel.X, curStmt, "syncMap")
+						}
+					case "Load", "Range":
+						// not a write: the caller goes on to USE what the cache holds, so the cache is transparent
+						// only if nothing reachable fills it with values that depend on per-call inputs
+						record(n, sel.X, curStmt, "syncMapLoad")
 					}
 				}
 			}
